@@ -77,3 +77,25 @@ impl super::Debugger {
 }
 // DR7 / DR6 images with the raw constructor/accessor `verif_from_raw` / `verif_raw` (C14)
 pub use super::register::debug::{DebugControlRegister, DebugStatusRegister};
+
+/// C05: the unwinder's view of a selected frame, without the DWARF-expression layers above it.
+impl super::Debugger {
+    /// `restore_registers_at_frame(frame_num)` applied to the current registers of the thread in focus,
+    /// as (DWARF register number, value) for every register that holds a value.
+    pub fn verif_restore_registers_at_frame(&self, frame_num: u32) -> Result<Vec<(u16, u64)>, Error> {
+        let pid = self.ecx().pid_on_focus();
+        let mut registers =
+            super::register::DwarfRegisterMap::from(super::register::RegisterMap::current(pid)?);
+        self.debugee
+            .restore_registers_at_frame(pid, &mut registers, frame_num)?;
+        Ok((0u16..0x100)
+            .filter_map(|n| registers.value(gimli::Register(n)).ok().map(|v| (n, v)))
+            .collect())
+    }
+
+    /// `Debugee::return_addr` (what `finish` uses) for the thread in focus.
+    pub fn verif_return_addr(&self) -> Result<Option<usize>, Error> {
+        let pid = self.ecx().pid_on_focus();
+        Ok(self.debugee.return_addr(pid)?.map(usize::from))
+    }
+}
